@@ -314,7 +314,7 @@ var failKinds = []struct {
 	{"update_set_div0", 12},
 	{"update_where_div0", 5},
 	{"update_unknown", 4},
-	{"update_multi_ambiguous", 6},
+	{"update_multi_ambiguous", 9},
 	{"update_multi_div0", 6},
 	{"delete_div0", 7},
 	{"delete_multi_div0", 3},
@@ -475,8 +475,25 @@ func genFail(t *rapid.T, T, B *gTbl, enum bool) failT {
 			}
 		}
 		f.SK, f.FK, f.Drive, f.K, f.Errno, f.Refs = "update_multi", "ambiguous", T.Name, k, errAmbiguous, both
-		f.SQL = fmt.Sprintf("UPDATE %s SET %s.v = 'F' || %s.v FROM %s CROSS JOIN %s WHERE %s.id = %d OR (%s.id = {K} AND %s.id = %d);",
-			T.Name, T.Name, B.Name, T.Name, B.Name, B.Name, a, T.Name, B.Name, b)
+		// the SET value: mostly a DIRECT field reference of the other table (Evaluate then returns the very
+		// object the cached source view holds) of a string, integer or float column; sometimes an expression
+		set := fmt.Sprintf("%s.v = 'F' || %s.v", T.Name, B.Name)
+		if fw.Pct(t, "amb_direct", 75) {
+			dst := fw.PickU(t, "amb_dst", []string{"v", "v", "w"})
+			src := fw.PickU(t, "amb_src", []string{"v", "v", "w", "id", "fl", "fl"})
+			if src == "fl" {
+				// a float-typed column (also in a file table: the added cells are typed until COMMIT)
+				f.Pre = append(f.Pre, stmtT{Kind: "add_float", SQL: fmt.Sprintf("ALTER TABLE %s ADD fl DEFAULT id * 0.5;", B.Name), Refs: []string{B.Name}})
+			}
+			set = fmt.Sprintf("%s.%s = %s.%s", T.Name, dst, B.Name, src)
+			if fw.Pct(t, "amb_two", 35) {
+				other := map[string]string{"v": "w", "w": "v"}[dst]
+				set += fmt.Sprintf(", %s.%s = %s.%s", T.Name, other, B.Name, fw.PickU(t, "amb_src2", []string{"v", "w", "id"}))
+			}
+			f.Shared = 1
+		}
+		f.SQL = fmt.Sprintf("UPDATE %s SET %s FROM %s CROSS JOIN %s WHERE %s.id = %d OR (%s.id = {K} AND %s.id = %d);",
+			T.Name, set, T.Name, B.Name, B.Name, a, T.Name, B.Name, b)
 	case "update_multi_div0":
 		k := pickRow(t, common)
 		f.SK, f.FK, f.Drive, f.Common, f.K, f.Errno, f.Refs = "update_multi", "div0", T.Name, B.Name, k, errDiv0, both
@@ -699,7 +716,7 @@ func genFail(t *rapid.T, T, B *gTbl, enum bool) failT {
 		sort.Ints(f.Ns)
 	}
 	if sh.n > 0 {
-		f.Pre, f.Shared = sh.pre, sh.n
+		f.Pre, f.Shared = append(f.Pre, sh.pre...), f.Shared+sh.n
 		if len(f.Refs) < 2 {
 			f.Refs = sh.refList()
 		}
@@ -1598,7 +1615,7 @@ func TestC08FailedStatement(t *testing.T) {
 			"a cancelled statement that completes because it needs fewer polls than N ends the case (measured as cancel:completed_*), a case whose statement never fails is discarded (unexpected_success:*)",
 			"ROLLBACK ending: file tables and committed temporary tables must read as initially; tables created in the rolled-back transaction are not examined",
 			"FROM-subqueries over a source table are generated unless avoidFromSubqueryPoisonsFileInfo is set; whatever fails after one is reported under the signature from_subquery_poisons_fileinfo (defect repaired in /repo b1128aa)",
-			"60% of the VALUES lists (and one UPDATE shape) contain values that are the very objects table cells hold: scalar subqueries over the target or the other table, variables assigned from a cell (VAR :=, SELECT INTO), variables fetched from a cursor; after every failed execution data-neutral SELECTs over DUAL and both tables allocate strings, integers and floats (so a value object wrongly recycled by the failed statement is overwritten) before BOTH tables are read; 35% of the cases run with value.VerifPoison (verif build) where a discarded object shows a sentinel at once",
+			"the ambiguous multi-table UPDATE mostly sets DIRECT field references of the other table (string, integer and - through an added column - float typed), ambiguity at the first/middle/last target record; 60% of the VALUES lists (and one UPDATE shape) contain values that are the very objects table cells hold: scalar subqueries over the target or the other table, variables assigned from a cell (VAR :=, SELECT INTO), variables fetched from a cursor; after every failed execution data-neutral SELECTs over DUAL and both tables allocate strings, integers and floats (so a value object wrongly recycled by the failed statement is overwritten) before BOTH tables are read; 35% of the cases run with value.VerifPoison (verif build) where a discarded object shows a sentinel at once",
 		},
 	})
 }
